@@ -235,22 +235,49 @@ def check_recursive_arm(res, key, mode, kind, lhs, rhs):
         _ob(res, "C19.arms", False, key, "recursive arm stays in the @%s muncher with a bracketed accumulator" % mode, detail)
         return
     acc = norm(flat(inner[2]["t"]))
-    value = norm(VALUE_OF[kind])
-    if mode == "array":
-        new = value
-    else:
-        new = norm("$crate::object::Entry::new(json!(@key($($key)+)),") + value + ")"
-    comma = "," if kind == "expr_comma" else ""
-    want_acc = ACC_OUT + new + comma
-    _ob(res, "C19.arms", acc == want_acc, key,
-           "the accumulator is `$($elems,)*` followed by the new element (earlier members kept, in order, new member last, value taken from the matched tokens)",
-           "accumulator: %s; expected: %s" % (flat(inner[2]["t"]), want_acc))
+    # the accumulator must be `$($elems,)*` followed by exactly one new element.  What the new element looks like is decided
+    # by C19.expand on the compiled corpus; here only the discipline is checked: earlier members kept in order, the new
+    # member last, and — for the arms that matched tokens — built from those tokens ($lit, $array, $map, $next, $last; and the
+    # accumulated key for objects).
+    ok_prefix = acc.startswith(ACC_OUT)
+    new_el = acc[len(ACC_OUT):] if ok_prefix else ""
+    comma = kind == "expr_comma"
+    if comma and new_el.endswith(","):
+        new_el = new_el[:-1]
+    meta = {"literal": "$lit", "array": "$array", "map": "$map", "expr_comma": "$next", "expr_last": "$last"}.get(kind)
+    uses_tokens = meta is None or meta in new_el
+    one_element = bool(new_el) and top_level_commas(inner[2]["t"]) == (1 if comma else 0)
+    uses_key = mode == "array" or "$key" in new_el
+    res_ok = ok_prefix and one_element and uses_tokens and uses_key and "$elems" not in new_el
+    _ob(res, "C19.arms", res_ok, key,
+        "the accumulator is `$($elems,)*` followed by exactly one new element built from the matched tokens (earlier members kept, in order, new member last)",
+        "accumulator: %s" % flat(inner[2]["t"]))
     rest = norm(flat(inner[3:]))
     if mode == "array":
         want_rest = "" if kind == "expr_last" else norm("$($rest)*")
     else:
         want_rest = norm("() () ()") if kind == "expr_last" else norm("() ($($rest)*) ($($rest)*)")
     _ob(res, "C19.arms", rest == want_rest, key + "/rest", "the remaining tokens are passed on unchanged (nothing dropped or duplicated)", "rest: %s" % flat(inner[3:]))
+
+
+def top_level_commas(tokens):
+    """Number of `,` tokens at the top level of the accumulator that are not part of the `$($elems,)*` repetition."""
+    n = 0
+    i = 0
+    while i < len(tokens):
+        t = tokens[i]
+        if t == "$" and i + 1 < len(tokens) and isinstance(tokens[i + 1], dict):
+            # a repetition `$( ... ) sep? op`: skip the group, an optional separator and the operator
+            i += 2
+            if i < len(tokens) and tokens[i] in (",", ";") and i + 1 < len(tokens) and tokens[i + 1] in ("*", "+", "?"):
+                i += 1
+            if i < len(tokens) and tokens[i] in ("*", "+", "?"):
+                i += 1
+            continue
+        if t == ",":
+            n += 1
+        i += 1
+    return n
 
 
 def check_terminal_arm(res, key, mode, kind, lhs, rhs):
